@@ -94,8 +94,8 @@ func C14(r *simkit.Run) {
 	// failure leaves the block's transaction open); a transaction block that is never closed; an
 	// object every statement creates fine but the state reading that follows the replay cannot
 	// digest (the failure happens between the replay and the restore); a process crash.
-	fault := []string{"none", "bad-statement", "crash", "bad-statement-in-transaction-block", "unterminated-transaction-block", "unreadable-object"}[t.Weighted("fault", 2, 3, 2, 1, 1, 2)]
-	if command == "migrate-lint" && fault == "crash" {
+	fault := []string{"none", "bad-statement", "crash", "bad-statement-in-transaction-block", "unterminated-transaction-block", "unreadable-object", "interrupt"}[t.Weighted("fault", 2, 3, 2, 1, 1, 2, 2)]
+	if command == "migrate-lint" && (fault == "crash" || fault == "interrupt") {
 		fault = "bad-statement" // lint replays with its own loop: no instrumented point
 	}
 	// Objects SQLite accepts and the inspector rejects: a self reference to a missing column, a
@@ -183,28 +183,29 @@ func C14(r *simkit.Run) {
 	hcl := []sTable{{Name: "h1"}, {Name: "h2", IdxN: true}}
 	os.WriteFile(schemaHCL, []byte(hclOf(hcl)), 0o644)
 
-	run := func(env []string) CmdResult {
+	argsOf := func() []string {
 		switch command {
 		case "migrate-validate":
-			return w.Atlas(env, "migrate", "validate", "--dir", w.DirURL(), "--dev-url", w.DevURL())
+			return []string{"migrate", "validate", "--dir", w.DirURL(), "--dev-url", w.DevURL()}
 		case "migrate-diff":
-			return w.Atlas(env, "migrate", "diff", "added", "--dir", w.DirURL(), "--to", "file://"+schemaHCL, "--dev-url", w.DevURL())
+			return []string{"migrate", "diff", "added", "--dir", w.DirURL(), "--to", "file://" + schemaHCL, "--dev-url", w.DevURL()}
 		case "migrate-lint":
-			return w.Atlas(env, "migrate", "lint", "--dir", w.DirURL(), "--dev-url", w.DevURL(), "--latest", fmt.Sprint(1+t.Draw("lint-latest", len(files))))
+			return []string{"migrate", "lint", "--dir", w.DirURL(), "--dev-url", w.DevURL(), "--latest", fmt.Sprint(1 + t.Draw("lint-latest", len(files)))}
 		case "schema-apply-dir":
-			return w.Atlas(env, "schema", "apply", "-u", w.URL(), "--to", w.DirURL(), "--dev-url", w.DevURL(), "--auto-approve")
+			return []string{"schema", "apply", "-u", w.URL(), "--to", w.DirURL(), "--dev-url", w.DevURL(), "--auto-approve"}
 		case "schema-apply-sql":
-			return w.Atlas(env, "schema", "apply", "-u", w.URL(), "--to", "file://"+schemaSQL, "--dev-url", w.DevURL(), "--auto-approve")
+			return []string{"schema", "apply", "-u", w.URL(), "--to", "file://" + schemaSQL, "--dev-url", w.DevURL(), "--auto-approve"}
 		case "schema-diff-sql":
-			return w.Atlas(env, "schema", "diff", "--from", "file://"+otherSQL, "--to", "file://"+schemaSQL, "--dev-url", w.DevURL())
+			return []string{"schema", "diff", "--from", "file://" + otherSQL, "--to", "file://" + schemaSQL, "--dev-url", w.DevURL()}
 		case "schema-inspect-sql":
-			return w.Atlas(env, "schema", "inspect", "-u", "file://"+schemaSQL, "--dev-url", w.DevURL())
+			return []string{"schema", "inspect", "-u", "file://" + schemaSQL, "--dev-url", w.DevURL()}
 		case "schema-apply-hcl-dev":
-			return w.Atlas(env, "schema", "apply", "-u", w.URL(), "--to", "file://"+schemaHCL, "--dev-url", w.DevURL(), "--auto-approve")
+			return []string{"schema", "apply", "-u", w.URL(), "--to", "file://" + schemaHCL, "--dev-url", w.DevURL(), "--auto-approve"}
 		}
 		simkit.Harnessf("unknown command %s", command)
-		return CmdResult{}
+		return nil
 	}
+	run := func(env []string) CmdResult { return w.Atlas(env, argsOf()...) }
 	// Target database of `schema apply`: a populated table that must survive a failed dev replay.
 	if strings.HasPrefix(command, "schema-apply") {
 		db, err := observe.Open(w.DB)
@@ -284,7 +285,25 @@ func C14(r *simkit.Run) {
 		env = []string{fmt.Sprintf("VERIF_CRASH_AT=%s:%d", p, 1+t.Draw("crash-occurrence", 3))}
 		r.Configured("crash-in-replay")
 	}
-	res := run(env)
+	var res CmdResult
+	if fault == "interrupt" {
+		// Ctrl-C while the replay is under way: the process is parked at a point of the replay, gets
+		// SIGINT, acknowledges it (its context is cancelled) and is released.
+		pts := []string{"exec:before-stmt", "exec:after-stmt", "replay:before-restore"}
+		p := pts[t.Draw("interrupt-point", len(pts))]
+		occ := 1 + t.Draw("interrupt-occurrence", 3)
+		r.Configured("interrupt-in-replay")
+		var reached bool
+		res, reached = w.atlasInterrupted(p, occ, argsOf()...)
+		if reached {
+			r.Fired("interrupt-in-replay")
+			r.Fired("interrupt@" + p)
+		} else {
+			fault = "none"
+		}
+	} else {
+		res = run(env)
+	}
 	if _, err := observe.Read(w.DevDB); err != nil {
 		r.Nontrivial()
 		r.Fail(propC14, "handed-back-empty", "dev-database-damaged/"+command, "after `%s` (fault=%s -> %s) the dev database file cannot be read any more: %v", command, fault, res.Class(), err)
